@@ -19,6 +19,12 @@ CHECKS = {
     ),
 }
 
+CHECKS["C19"] = dict(
+    technique="static analysis: whole-package global-write scan (who-may-write inventory), lock-coverage lint of PEP 562 hooks, publish-after-build reachability on a hand-built CFG, import-introspection inventory of shared instances",
+    text="The complete set of functions that write process-wide state (module globals, class attributes, globals()) is computed from the source and must equal the reviewed inventory; every lazy import/publish is under a module-level RLock; no object is mutated after being stored into shared state on any CFG path; cache builders are effect-free; no shared Parser/Generator/Tokenizer instance exists. This is the publication/lock discipline that makes first-use races benign; schedules are not executed.",
+    ref="DESIGN.md section 4 / C19",
+)
+
 NOT_APPLICABLE = {
     "C02": "oracle is SQLite/DuckDB evaluation semantics (NULL ordering, division, || precedence); not present in the source, no structural clause implies row equality",
     "C03": "result-multiset equality of optimized vs original query over all databases; guards are semantic conditions, only checkable as frozen fragments (false-alarm prone)",
